@@ -100,3 +100,31 @@ package plookup
 //@ ensures[sub-proofs] isnil(result) ==> permok && innerok
 //@ modifies nothing
 //@ end
+
+// deriveRandomness: a Fiat-Shamir challenge of this argument binds the raw encoding of every point of the list it is
+// handed, in order, nothing skipped or repeated, and is computed only then: before every Bind the value bound is the
+// buffer that received RawBytes() of the point whose turn it is (the variadic list is a slice of pointers whose
+// pointees are identified by their index: option functional-nested-slices). Which commitments the verifier lists
+// for which challenge is captured at the verifier's call sites.
+
+//@ func deriveRandomness
+//@ layer ring fr.Element
+//@ option opaque-calls
+//@ option functional-nested-slices
+//@ option nomerge
+//@ ghost nb = 0
+//@ ghost rok = false
+//@ cut after call RawBytes #*
+//@ + ghost rok = same(callarg0, points[nb])
+//@ cut before call Bind #*
+//@ + invariant[bound-point] rok && same(callarg2, viewof(buf)) && nb < len(points)
+//@ cut after call Bind #*
+//@ + ghost nb = nb + 1
+//@ + ghost rok = false
+//@ loop 0
+//@ + invariant[points] nb == rangeindex + 1 && -1 <= rangeindex && rangeindex < len(points) && !rok
+//@ + havoc nb
+//@ cut before call ComputeChallenge #1
+//@ + invariant[every-point-bound] nb == len(points)
+//@ modifies nothing
+//@ end
